@@ -7,6 +7,7 @@ use crate::mon::execq::{compile, render, Compiled};
 use crate::util::*;
 use qrlew::differential_privacy::DpParameters;
 use qrlew::privacy_unit_tracking::{PrivacyUnit, Strategy};
+use qrlew::relation::{Relation, Variant as _};
 use serde_json::json;
 use std::collections::HashMap;
 
@@ -70,8 +71,30 @@ pub fn check(q: &DpQuery, w: &DpWorld, strategy: Strategy, rep: &mut Report) {
     let (pi, wi) = match (full.col(PrivacyUnit::privacy_unit()), full.col(PrivacyUnit::privacy_unit_weight())) {
         (Some(a), Some(b)) => (a, b),
         _ => {
-            // a Public result carries no unit: nothing to check
+            // a Public result carries no unit: fine for a query over public tables only
             rep.count("result_without_privacy_unit_columns(public)");
+            let mut nodes = std::collections::HashMap::new();
+            walk(&rel, &mut nodes);
+            let protected_read: Vec<String> = nodes
+                .values()
+                .filter_map(|n| match n {
+                    Relation::Table(t) => t.path().last().ok().map(|s| s.to_string()),
+                    _ => None,
+                })
+                .filter(|t| !w.public.contains(t))
+                .collect();
+            if !protected_read.is_empty() && !full.rows.is_empty() {
+                rep.eval();
+                rep.violation(
+                    format!("C05|no-privacy-unit-columns|{}", q.features.first().cloned().unwrap_or("plain")),
+                    format!(
+                        "the privacy-unit-preserving rewriting returns rows without privacy-unit / weight columns although the query reads the protected table(s) {:?}",
+                        protected_read
+                    ),
+                    json!({"world": w.cat.to_json(6), "relation_name_prefix": w.cat.rel_prefix, "query": sql, "strategy": format!("{:?}", strategy),
+                           "rewritten": rendered, "result": full.to_json(6)}),
+                );
+            }
             return;
         }
     };
